@@ -6,16 +6,19 @@ import numpy as np
 from .. import core, gen
 
 ID = 'C07'
-FOUNDATIONS = ['harness.foundation.filteriter']   # the models use the closed form proved by F6 (filterIter_refines)
+FOUNDATIONS = ['harness.foundation.filteriter', 'harness.foundation.cscalar']   # the models use the closed form proved by F6 (filterIter_refines)
 LEAN_TARGETS = ['Mahotas.Proofs.FilterIter']
 LEVEL = 'proof'
 MODES = ['nearest', 'wrap', 'reflect', 'mirror', 'constant', 'ignore']
 DTYPES = ['uint8', 'int32', 'float64', 'int8', 'uint16', 'int64', 'uint64', 'float32', 'bool']
 DTNAMES = {'bool': 'b1', 'uint8': 'u8', 'uint16': 'u16', 'uint32': 'u32', 'uint64': 'u64',
            'int8': 'i8', 'int16': 'i16', 'int32': 'i32', 'int64': 'i64'}   # protocol names of DT.ofName
-RULE = ('corpus; find: every placement of every sub-window of seeded images up to 6x6 (incl. last row/column and template = '
+RULE = ('corpus; size-threshold stream (rows of 2^15+1 / 2^16-1 / 2^16 / 2^16+1 pixels, 257x256 images, neighbourhoods of 255 / 256 / 257 '
+        '/ 65537 members, find with its only match beyond index 65535; judged by the same Lean model and specification); currank: blocks of 2000 triples (n, N2 < 2^26, rank) incl. quotients at / one step below an integer; find: every placement of every sub-window of seeded images up to 6x6 (incl. last row/column and template = '
         'image) plus perturbed (non-occurring) templates; random 1-3 D x 9 dtypes x 7 layouts x 0/1 neighbourhoods of every '
-        'shape (odd/even, larger than the image, centre absent) x every rank x 6 modes; templates of every shape. '
+        'shape (odd/even, larger than the image, centre absent) x every rank x 6 modes; templates of every shape; float32/float64 '
+        'template_match and mean_filter on dyadic values K/2^s of both signs up to the full significand; majority_filter on '
+        'binary images up to 9x9, N = 2..7. '
         'Non-trivial = output differs from the input / at least one match; distinct = distinct protocol line + layout.')
 ASSUMPTIONS = ['neighbourhoods Bc are 0/1 arrays (median rank = Bc.sum()//2 counts the members); for an even number of samples '
                'the median is element N//2 of the sorted samples (upper median), rescaled like any rank in ignore mode',
@@ -28,19 +31,49 @@ ASSUMPTIONS = ['neighbourhoods Bc are 0/1 arrays (median rank = Bc.sum()//2 coun
                'EVERY pixel, overflowing or not, is in addition compared with the model in the wrap-around arithmetic of the '
                'dtype (= exact value mod 2^bits, C07_template_match_wrapping); float dtypes: small integer values (exact), '
                'out-of-range pixels skipped',
-               'float images hold integer-valued (or quarter-integer, rank filters only) samples: exact arithmetic, no NaN',
-               'mean: sums below 2^53 (exact in double); sizes < 2^26']
+               'rank/median on float images: quarter-integers, or (enc=bits) ANY non-NaN float incl. denormals and +-inf but not '
+               '-0.0, passed to the integer model through the order embedding sign(x)*bits(|x|) (C07_rank_order_embedding); '
+               'kinds rank/median/mean/tm: float images hold integer-valued (or quarter-integer, rank filters only) samples: '
+               'exact arithmetic, no NaN; kinds tmf/meanf: finite dyadic float values, judged bit for bit against the generic '
+               'kernel run in binary64/binary32 and against the exact rational value within the proved forward error bound '
+               '(template_match: 2(N+3)u relative, C07_template_match_float_error_bound; mean: 2(n+1)u times the sum of '
+               'magnitudes), exactly where no operation rounds (C07_template_match_float_exact, C07_mean_double_exact)',
+               'mean (integer kinds): sums below 2^53 (exact in double); sizes < 2^26 (C07_currank_double_eq_floor)',
+               'majority_filter is outside the fixed statement: compared with the closed form of its loops only (kind model)']
 TRUSTED = ['numpy (array construction, layout views)', 'python fractions (correctly rounded exact mean)']
 EXHAUSTIVE = {'thorough': True}
 EXPLANATION = ('model = transliteration of rank_filter/mean_filter/template_match/find2d over exact integers (template_match also in '
                'the wrap-around arithmetic of the image dtype, with the integral promotions), run by the native '
                'Lean driver; spec = k-th smallest by counting, exact sum/n, sum of squared differences with borderSpec, '
-               'occurrence predicate')
+               'occurrence predicate; currank, template_match and mean_filter also generic in the arithmetic and run in '
+               'binary64/binary32 (Lean Float/Float32 = the hardware operations); majority_filter loops and closed form')
+
+
+_FINF = {'float32': 0x7F800000, 'float64': 0x7FF0000000000000}      # bit pattern of +inf: every |e| <= this is a non-NaN float
+
+
+def _fbits_decode(es, dtype):
+    """order embedding of the non-NaN floats into the integers, e = sign(x) * bits(|x|) (strictly increasing, 0 <-> +0.0;
+    -0.0 is not produced); the rank filter commutes with it (C07_rank_order_embedding)"""
+    ut = np.uint32 if dtype == 'float32' else np.uint64
+    mag = np.array([abs(int(e)) for e in es], dtype=ut).view(np.dtype(dtype))
+    neg = np.array([int(e) < 0 for e in es], dtype=bool)
+    return np.where(neg, -mag, mag).astype(np.dtype(dtype))
+
+
+def _fbits_encode(a):
+    a = np.ascontiguousarray(a)
+    ut = np.uint32 if a.dtype == np.float32 else np.uint64
+    bits = np.abs(a).view(ut).ravel().tolist()
+    neg = (np.signbit(a) & (a != 0)).ravel().tolist()
+    return [-int(b) if n else int(b) for b, n in zip(bits, neg)]
 
 
 def _arr(case):
     a = np.array(case['data'], dtype=object)
     dt = np.dtype(case['dtype'])
+    if case.get('enc') == 'bits':
+        return _fbits_decode(case['data'], case['dtype']).reshape(case['shape'])
     if dt.kind == 'f':
         a = (np.array(case['data'], dtype=np.float64) / case.get('scale', 1)).astype(dt)
     else:
@@ -50,20 +83,39 @@ def _arr(case):
 
 def _line(case):
     k = case['kind']
+    if k == 'currank':
+        return _currank_line(case)
     s = (f"c07 kind={k} mode={MODES.index(case.get('mode', 'reflect'))} shape={gen.enc_shape(case['shape'])} "
          f"data={gen.enc_arr(case['data'])} bshape={gen.enc_shape(case['bshape'])} bc={gen.enc_arr(case['bc'])}")
     if k == 'rank':
         s += f" rank={case['rank']}"
     if k == 'tm' and case['dtype'] in DTNAMES:
         s += f" dt={DTNAMES[case['dtype']]}"
+    if k == 'tmf':
+        # data / bc are the values times 2^s as exact integers; the float run gets the values themselves (binary64 patterns;
+        # |K| < 2^24 for float32 so the narrowing in the driver is exact)
+        sc = case['scale']
+        s += (f" fdata={core.fmt_floats([v / sc for v in case['data']])} fbc={core.fmt_floats([v / sc for v in case['bc']])}"
+              f" ft={'f32' if case['dtype'] == 'float32' else 'f64'}")
+    if k == 'meanf':
+        s += f" fdata={core.fmt_floats([v / case['scale'] for v in case['data']])}"
+    if k == 'majority':
+        s += f" n={case['n']}"
     return s
+
+
+def _currank_line(case):
+    return (f"c07 kind=currank n={gen.enc_arr(case['n'])} n2={gen.enc_arr(case['n2'])} rank={gen.enc_arr(case['rank'])}")
 
 
 def _call(case, Al):
     import mahotas as mh
     k = case['kind']
     dt = Al.dtype
-    B = np.array(case['bc'], dtype=object).astype(dt).reshape(case['bshape']) if len(case['bc']) else np.zeros(case['bshape'], dt)
+    if k == 'tmf':
+        B = (np.array(case['bc'], dtype=np.float64) / case['scale']).astype(dt).reshape(case['bshape'])
+    else:
+        B = np.array(case['bc'], dtype=object).astype(dt).reshape(case['bshape']) if len(case['bc']) else np.zeros(case['bshape'], dt)
     B = gen.relayout(B, case.get('blayout', 'C')) if B.size else B
     with warnings.catch_warnings():
         warnings.simplefilter('ignore')
@@ -73,10 +125,12 @@ def _call(case, Al):
             if case.get('default_bc'):
                 return mh.median_filter(Al, mode=case['mode'])
             return mh.median_filter(Al, B, mode=case['mode'])
-        if k == 'mean':
+        if k in ('mean', 'meanf'):
             return mh.mean_filter(Al, B, mode=case['mode'])
-        if k == 'tm':
+        if k in ('tm', 'tmf'):
             return mh.template_match(Al, B, mode=case['mode'])
+        if k == 'majority':
+            return mh.majority_filter(Al, case['n'])
         if k == 'find':
             return mh.find(Al, B)
     raise ValueError(k)
@@ -99,8 +153,13 @@ def _judge(case, got, drv):
     sc = case.get('scale', 1)
     isf = np.dtype(case['dtype']).kind == 'f'
     if k in ('rank', 'median'):
-        g = got.ravel(order='C').tolist()
-        g = [int(round(x * sc)) if isf else int(x) for x in g]
+        if case.get('enc') == 'bits':
+            if np.isnan(got).any():
+                return [dict(kind='property', key=f'{k}:nan', detail={})]
+            g = _fbits_encode(np.asarray(got).reshape(-1))
+        else:
+            g = got.ravel(order='C').tolist()
+            g = [int(round(x * sc)) if isf else int(x) for x in g]
         spec, model = _opt(drv['spec']), _opt(drv['model'])
         bad = [i for i, (a, b) in enumerate(zip(g, spec)) if b is not None and a != b]
         if bad:
@@ -109,6 +168,10 @@ def _judge(case, got, drv):
             badm = [i for i, (a, b) in enumerate(zip(g, model)) if b is not None and a != b]
             if badm or [x is None for x in spec] != [x is None for x in model]:
                 out.append(dict(kind='model', key=f'{k}-model', detail=dict(pixels=badm[:8], got=g, model=model)))
+            # currank evaluated in binary64 as the C++ does (C07_currank_double_eq_floor: = the integer floor)
+            dmodel = _opt(drv.get('dmodel', ''))
+            if not out and dmodel != model:
+                out.append(dict(kind='model', key=f'{k}-currank-double', detail=dict(model=model, dmodel=dmodel)))
         case['_undefined'] = sum(1 for x in spec if x is None)
     elif k == 'mean':
         if got.dtype != np.float64:
@@ -148,6 +211,82 @@ def _judge(case, got, drv):
             badm = [i for i, (a, b) in enumerate(zip(g, model)) if lo <= b <= hi and a != b]
             if badm:
                 out.append(dict(kind='model', key='template_match-model', detail=dict(pixels=badm[:8], got=g, model=model)))
+    elif k == 'meanf':
+        if got.dtype != np.float64:
+            return [dict(kind='property', key='mean:dtype', detail=dict(dtype=str(got.dtype)))]
+        g = got.ravel(order='C')
+        sums, ns, asums = core.ints(drv['sum']), core.ints(drv['n']), core.ints(drv['asum'])
+        model = core.floats(drv['model'])
+        sc = case['scale']
+        u = Fraction(1, 2 ** 53)
+        bad, nexact = [], 0
+        for i, (a, sm, n, asum) in enumerate(zip(g.tolist(), sums, ns, asums)):
+            if n == 0:
+                continue
+            if not np.isfinite(a):
+                bad.append(i); continue
+            if sc == 1 and asum <= 2 ** 53:
+                # integer values, magnitudes sum below 2^53: the correctly rounded exact mean (C07_mean_double_exact)
+                nexact += 1
+                if a != float(Fraction(sm, n)):
+                    bad.append(i)
+            elif abs(Fraction(a) * n * sc - sm) > 2 * (n + 2) * u * asum:
+                # |computed sum - sum| <= ((1+u)^(n-1) - 1) * sum of magnitudes, one more rounding for the division and (64-bit
+                # integer samples beyond 2^53) one for the conversion of each sample to double
+                bad.append(i)
+        case['_exact'] = nexact
+        case['_undefined'] = sum(1 for n in ns if n == 0)
+        if bad:
+            out.append(dict(kind='property', key='mean:float', detail=dict(pixels=bad[:8], got=g.tolist(), sums=sums, ns=ns,
+                                                                         scale=sc, mode=case['mode'])))
+        else:
+            gb, mb = g.view(np.uint64), model.view(np.uint64)
+            badm = [i for i, n in enumerate(ns) if n > 0 and (i >= len(mb) or gb[i] != mb[i])]
+            if badm:
+                out.append(dict(kind='model', key='mean-float-model', detail=dict(pixels=badm[:8], got=g.tolist(),
+                                                                                  model=model.tolist())))
+    elif k == 'tmf':
+        if got.dtype != np.dtype(case['dtype']):
+            return [dict(kind='property', key='template_match:dtype', detail=dict(dtype=str(got.dtype)))]
+        g = got.ravel(order='C').astype(np.float64)
+        spec, obs = core.ints(drv['spec']), core.ints(drv['obs'])
+        model = core.floats(drv['model'])
+        sc2 = case['scale'] ** 2
+        nt = int(np.prod(case['bshape']))
+        f32 = case['dtype'] == 'float32'
+        u = 2.0 ** -24 if f32 else 2.0 ** -53
+        lim = 2 ** 24 if f32 else 2 ** 53
+        bad, nexact = [], 0
+        for i, (a, sp, o) in enumerate(zip(g.tolist(), spec, obs)):
+            if case['mode'] == 'constant' and not o:
+                continue
+            if not np.isfinite(a):
+                bad.append(i); continue
+            ga = Fraction(a) * sc2                          # the real output, exactly, scaled like the specification
+            if case['scale'] == 1 and sp <= lim:
+                # integer values, exact SSD representable: no operation rounds (C07_template_match_float_exact)
+                nexact += 1
+                if ga != sp:
+                    bad.append(i)
+            elif abs(ga - sp) > Fraction(2 * (nt + 3)) * Fraction(u) * sp:
+                # every term is non-negative: (1-u)^(nt+3) S <= computed <= (1+u)^(nt+3) S
+                bad.append(i)
+        case['_exact'] = nexact
+        if bad:
+            out.append(dict(kind='property', key='template_match:float', detail=dict(pixels=bad[:8], got=g.tolist(), spec=spec,
+                                                                                   scale2=sc2, mode=case['mode'])))
+        elif len(model) != len(g) or not np.array_equal(g.view(np.uint64), model.view(np.uint64)):
+            badm = [i for i in range(min(len(g), len(model))) if g.view(np.uint64)[i] != model.view(np.uint64)[i]]
+            out.append(dict(kind='model', key='template_match-float-model', detail=dict(pixels=badm[:8], got=g.tolist(),
+                                                                                       model=model.tolist())))
+    elif k == 'majority':
+        if got.dtype != np.bool_:
+            return [dict(kind='property', key='majority_filter:dtype', detail=dict(dtype=str(got.dtype)))]
+        g = [int(x) for x in got.ravel(order='C').tolist()]
+        spec, model = core.ints(drv['spec']), core.ints(drv['model'])
+        # outside the fixed statement of C07: the closed form proved equal to the loops (C07_majority_closed_form)
+        if g != spec or g != model:
+            out.append(dict(kind='model', key='majority_filter-model', detail=dict(got=g, spec=spec, model=model)))
     elif k == 'find':
         if got.dtype != np.bool_:
             return [dict(kind='property', key='find:dtype', detail=dict(dtype=str(got.dtype)))]
@@ -170,6 +309,16 @@ def evaluate(cases):
     lines = [_line(c) for c in cases]
     drvs = core.drive(lines)
     for case, line, drv in zip(cases, lines, drvs):
+        if case['kind'] == 'currank':
+            # block case: npy_intp(n*rank/double(N2)) in the driver's binary64 against the integer floor
+            f = []
+            if 'error' in drv:
+                raise core.Infra('driver: ' + drv['error'])
+            if not drv.get('model') or drv.get('model') != drv.get('spec'):
+                f.append(dict(kind='model', key='currank-double', detail=dict(model=drv.get('model'), spec=drv.get('spec')),
+                              case=case))
+            res.append(dict(findings=f, nontrivial=True, sig=line, tags=dict(kind='currank'), n=len(case['n'])))
+            continue
         A = _arr(case)
         Al = gen.relayout(A, case.get('layout', 'C'))
         before = Al.copy()
@@ -188,17 +337,36 @@ def evaluate(cases):
         tags = dict(kind=case['kind'], dtype=case['dtype'], ndim=len(sh), layout=case.get('layout', 'C'),
                     mode=case.get('mode', '-'),
                     elem=('larger' if any(b > s for b, s in zip(bs, sh)) else 'even' if any(b % 2 == 0 for b in bs) else 'odd'))
+        if case.get('size'):
+            tags['size_threshold'] = case['size']
+        if case.get('enc'):
+            tags['float_values'] = 'any-bit-pattern'
+        elif case['kind'] in ('rank', 'median') and np.dtype(case['dtype']).kind == 'f':
+            tags['float_values'] = 'quarter-integers'
         if case['kind'] == 'find':
             tags['find'] = case.get('tag', 'random')
+            tags['find_values'] = case.get('values', 'small')
+        big = 2 ** 24 if case['dtype'] == 'float32' else 2 ** 53
+        if case['kind'] in ('rank', 'median', 'mean', 'meanf', 'tm', 'find') and not case.get('enc') \
+                and any(abs(v) >= big * case.get('scale', 1) for v in case['data']):
+            tags['magnitude'] = '>=2^63' if any(abs(v) >= 2 ** 63 for v in case['data']) else '>=2^53 (float32: 2^24)'
         if case.get('_undefined'):
             tags['pixels_without_samples'] = 'yes'
         if case.get('_skipped'):
             tags['pixels_skipped'] = 'yes'
+        if case['kind'] == 'meanf':
+            tags['meanf_values'] = case.get('values', '-')
+            tags['meanf_exact_pixels'] = 'yes' if case.get('_exact') else 'no'
+        if case['kind'] == 'tmf':
+            tags['tmf_values'] = case.get('values', '-')
+            tags['tmf_exact_pixels'] = 'yes' if case.get('_exact') else 'no'
+        if case['kind'] == 'majority':
+            tags['majority_n'] = str(case['n'])
         if case['kind'] == 'tm':
             tags['tm_overflow'] = ('n/a' if np.dtype(case['dtype']).kind == 'f' else
                                    'yes' if case.get('_overflow') else 'no')
             tags['tm_values'] = case.get('values', 'small')
-        nt = got is not None and (bool(np.any(got)) if case['kind'] == 'find' else
+        nt = got is not None and (bool(np.any(got)) if case['kind'] in ('find', 'majority') else
                                   not np.array_equal(np.asarray(got, np.float64), np.asarray(A, np.float64)))
         res.append(dict(findings=f, nontrivial=bool(nt), sig=line + case.get('layout', 'C') + case['dtype'], tags=tags))
     return res
@@ -213,6 +381,30 @@ def _corpus():
     return out
 
 
+def _huge_palette(dtype):
+    """magnitudes at and beyond the point where a double (float: a single) stops being exact, and the dtype limits:
+    'compute in double' rewrites of an integer kernel merge 2^53 and 2^53+1, lose 2^63.., saturate at the limits"""
+    if dtype == 'float64':
+        return [2 ** 53, 2 ** 53 + 2, 2 ** 60, 2 ** 1000, -2 ** 53, -(2 ** 53 + 2)]           # exactly representable
+    if dtype == 'float32':
+        return [2 ** 24, 2 ** 24 + 2, 2 ** 100, -2 ** 24, -(2 ** 24 + 2)]
+    if dtype == 'bool':
+        return [1]
+    lo, hi = gen.dt_range(dtype)
+    vals = [hi, hi - 1, lo, lo + 1, hi // 2 + 1]
+    for b in (24, 53, 62, 63):
+        vals += [2 ** b, 2 ** b + 1, 2 ** b + 2, -(2 ** b + 1)]
+    return sorted({v for v in vals if lo <= v <= hi and v != 0})
+
+
+def _huge_data(rng, n, dtype, density=None):
+    pal = _huge_palette(dtype)
+    pal = rng.sample(pal, min(len(pal), rng.randint(1, 3)))
+    d = density if density is not None else rng.choice([0.15, 0.3, 0.6])
+    lo = 0 if dtype.startswith('uint') or dtype == 'bool' else -1
+    return [rng.choice(pal) if rng.random() < d else rng.randint(lo, 1) for _ in range(n)]
+
+
 def _data(rng, n, dtype, small=False):
     dt = np.dtype(dtype)
     if dt.kind == 'f':
@@ -223,10 +415,25 @@ def _data(rng, n, dtype, small=False):
         lo, hi = gen.dt_range(dtype)
         return [rng.randint(max(lo, -5), min(hi, 9)) for _ in range(n)]
     style = rng.random()
+    if style > 0.8 and dt.itemsize >= 4:                # values at / beyond 2^24, 2^53, 2^63 and the limits, with ties
+        return _huge_data(rng, n, dtype)
     if style < 0.4:                                     # many ties
         lo, hi = gen.dt_range(dtype)
         return [rng.randint(max(lo, -2), min(hi, 3)) for _ in range(n)]
     return [int(x) for x in gen.rand_int_array(rng, (n,), dtype).tolist()]
+
+
+def _fbits_data(rng, n, dtype):
+    """arbitrary non-NaN floats as embedded integers: palettes with ties (zero, denormals, 1, 1+ulp, max, +-inf) or uniform
+    over all bit patterns"""
+    inf = _FINF[dtype]
+    one = 0x3F800000 if dtype == 'float32' else 0x3FF0000000000000
+    minn = 0x00800000 if dtype == 'float32' else 0x0010000000000000
+    pal = [0, 1, -1, minn - 1, minn, -minn, one, one + 1, -one, -(one + 1), inf - 1, -(inf - 1), inf, -inf, rng.randint(-inf, inf)]
+    if rng.random() < 0.5:
+        pal = rng.sample(pal, rng.randint(2, 6))
+        return [rng.choice(pal) for _ in range(n)]
+    return [rng.choice(pal) if rng.random() < 0.3 else rng.randint(-inf, inf) for _ in range(n)]
 
 
 def _bc(rng, shape):
@@ -256,11 +463,22 @@ def _find_cases(rng, tier):
     if tier == 'quick':
         shapes = [(1, 1), (2, 2)] + rng.sample(shapes[1:], 3)
     for (n0, n1) in shapes:
-        for variant in range(2):
+        for variant in range(3):
             dtype = rng.choice(DTYPES)
             hi = 1 if variant == 0 or dtype == 'bool' else 5       # binary images: many repeated occurrences
             data = [rng.randint(0, hi) for _ in range(n0 * n1)]
-            A = np.array(data).reshape(n0, n1)
+            if variant == 2:
+                # a periodic row pattern (many true occurrences per row) with values at / beyond 2^53, 2^63 and the dtype
+                # limits sprinkled in: occurrences to the right of (and below) a huge value must still be found
+                dtype = rng.choice(['int64', 'uint64', 'int64', 'uint64', 'float64', 'float32', 'int32', 'uint16'])
+                pal = _huge_palette(dtype)
+                per = rng.choice([1, 2, 3])
+                pat = [rng.randint(0, 2) for _ in range(per)]
+                data = [pat[(i % n1) % per] for i in range(n0 * n1)]
+                for r_ in range(n0):
+                    if rng.random() < 0.7:
+                        data[r_ * n1 + rng.choice([0, 0, min(1, n1 - 1), rng.randrange(n1)])] = rng.choice(pal)
+            A = np.array(data, dtype=object).reshape(n0, n1)
             sizes = [(t0, t1) for t0 in range(1, n0 + 1) for t1 in range(1, n1 + 1)]
             if tier == 'quick' and len(sizes) > 9:
                 sizes = rng.sample(sizes, 7) + [(n0, n1), (1, n1)]
@@ -273,11 +491,13 @@ def _find_cases(rng, tier):
                     tag = ('whole' if (t0, t1) == (n0, n1) else 'flush' if (y == n0 - t0 or x == n1 - t1) else 'interior')
                     base = dict(kind='find', dtype=dtype, shape=[n0, n1], data=data, bshape=[t0, t1],
                                 layout=rng.choice(gen.LAYOUTS), blayout=rng.choice(['C', 'C', 'F', 'strided']))
+                    if variant == 2:
+                        base['values'] = 'huge'
                     out.append(dict(base, bc=[int(v) for v in T.ravel().tolist()], tag=tag))
                     if rng.random() < 0.25:
                         P = T.copy()
                         i = rng.randrange(P.size)
-                        P.flat[i] = (P.flat[i] + 1) % (hi + 1)
+                        P.flat[i] = (P.flat[i] + 1) % (hi + 1) if variant < 2 else (0 if P.flat[i] else 1)
                         out.append(dict(base, bc=[int(v) for v in P.ravel().tolist()], tag='perturbed'))
             # templates that cannot fit
             out.append(dict(kind='find', dtype=dtype, shape=[n0, n1], data=data, bshape=[n0 + 1, 1], bc=[0] * (n0 + 1),
@@ -287,10 +507,92 @@ def _find_cases(rng, tier):
     return out
 
 
+def _currank_cases(rng, nblocks):
+    """triples (n, N2, rank), n <= N2, rank < N2 < 2^26: the binary64 expression of rank_filter against the floor; half
+    of them with n*rank one below / exactly at a multiple of N2 (quotient just below / at an integer)"""
+    out = []
+    for _ in range(nblocks):
+        ns, n2s, rs = [], [], []
+        for _ in range(2000):
+            q = rng.random()
+            if q < 0.3:
+                N2 = rng.randint(1, 40); n = rng.randint(0, N2); r = rng.randrange(N2)
+            elif q < 0.5:
+                N2 = rng.randint(1, 2 ** 26 - 1); n = rng.randint(0, N2); r = rng.randrange(N2)
+            elif q < 0.75:                     # n * rank = N2 - 1 (just below 1) or a multiple of N2 minus 1
+                a, b = rng.randint(1, 2 ** 13 - 1), rng.randint(1, 2 ** 13 - 1)
+                N2 = a * b + 1; n, r = a, b
+            else:                              # n * rank an exact multiple of N2
+                N2 = rng.randint(2, 2 ** 13); k = rng.randint(1, N2 - 1)
+                n, r = k, N2 - 1
+                if rng.random() < 0.5:
+                    g = rng.randint(1, 2 ** 12); N2 = N2 * g; n = k * g; r = min(N2 - 1, (N2 // g) * rng.randint(0, g - 1))
+            if N2 >= 2 ** 26 or n > N2 or r >= N2:
+                continue
+            ns.append(n); n2s.append(N2); rs.append(r)
+        out.append(dict(kind='currank', n=ns, n2=n2s, rank=rs))
+    return out
+
+
+def _threshold_cases(rng, tier):
+    """size-threshold stream: element counts / neighbourhood sizes / match positions crossing 2^8, 2^15, 2^16 (+-1), so that a
+    counter, index or accumulator narrowed to 8/16 bits cannot pass. Judged by the same Lean model/spec (the driver is
+    linear on these: < 1 s per line)."""
+    pool = []
+    def row(nn):
+        return rng.choice([[nn], [1, nn], [nn, 1]])
+    for nn in (2 ** 16 + 1, 2 ** 16, 2 ** 15 + 1, 2 ** 16 - 1):
+        dt = rng.choice(['uint8', 'int32', 'uint16', 'float64', 'int64'])
+        sh = row(nn)
+        one = lambda k: [k if d > 1 else 1 for d in sh]
+        pool.append(dict(kind='rank', dtype=dt, shape=sh, data=_data(rng, nn, dt, small=True), bshape=one(3), bc=[1, 1, 1],
+                         rank=rng.randrange(3), mode=rng.choice(MODES), layout='C', size='pixels'))
+        pool.append(dict(kind='mean', dtype=dt, shape=sh, data=_data(rng, nn, dt, small=True), bshape=one(3), bc=[1, 1, 1],
+                         mode=rng.choice(MODES), layout='C', size='pixels'))
+        dti = rng.choice(['uint8', 'uint16', 'int32', 'int8'])
+        pool.append(dict(kind='tm', dtype=dti, shape=sh, data=_data(rng, nn, dti, small=True), bshape=one(3), bc=[1, 2, 3],
+                         mode=rng.choice(MODES), layout='C', blayout='C', values='small', size='pixels'))
+        # find: the only occurrence is flush with the far end (index > 65535)
+        for sh2, ts in (([1, nn], [1, 3]), ([nn, 1], [3, 1])):
+            pool.append(dict(kind='find', dtype=rng.choice(['uint8', 'int32', 'bool', 'float64'][:1] + ['int32', 'float64']),
+                             shape=sh2, data=[0] * (nn - 3) + [1, 2, 3], bshape=ts, bc=[1, 2, 3], layout='C', tag='flush', size='pixels'))
+    pool.append(dict(kind='median', dtype='int32', shape=[257, 256], data=_data(rng, 257 * 256, 'int32', small=True),
+                     bshape=[3, 3], bc=[1] * 9, mode=rng.choice(MODES), layout='C', size='pixels'))
+    pool.append(dict(kind='mean', dtype='uint8', shape=[256, 257], data=_data(rng, 257 * 256, 'uint8'),
+                     bshape=[3, 3], bc=[0, 1, 0, 1, 1, 1, 0, 1, 0], mode='ignore', layout='C', size='pixels'))
+    # neighbourhoods with 255 / 256 / 257 / 65537 members: n, N2, currank, the sample buffer
+    for n2 in (255, 256, 257, 2 ** 16 + 1):
+        ln = rng.randint(2, 5) if n2 > 1000 else rng.randint(100, 300)
+        dt = rng.choice(['uint8', 'int32', 'float64'])
+        pool.append(dict(kind='rank', dtype=dt, shape=[ln], data=_data(rng, ln, dt), bshape=[n2], bc=[1] * n2,
+                         rank=rng.choice([n2 - 1, n2 // 2, rng.randrange(n2)]), mode=rng.choice(MODES), layout='C',
+                         blayout='C', size='members'))
+        pool.append(dict(kind='mean', dtype=dt, shape=[ln], data=_data(rng, ln, dt, small=True), bshape=[n2], bc=[1] * n2,
+                         mode=rng.choice(MODES), layout='C', size='members'))
+    if tier == 'quick':
+        members = [c for c in pool if c['size'] == 'members']
+        pixels = [c for c in pool if c['size'] == 'pixels']
+        npx = lambda c: int(np.prod(c['shape']))
+        big = [c for c in pixels if npx(c) >= 2 ** 16]            # unsigned 16-bit narrowing needs >= 2^16, signed > 2^15
+        pick = [rng.choice([c for c in big if c['kind'] == k]) for k in ('rank', 'mean', 'tm')]
+        pick += [c for c in big if c['kind'] == 'find' and npx(c) == 2 ** 16 + 1]          # both orientations
+        pick += [c for c in big if len(c['shape']) == 2 and min(c['shape']) > 1]           # 257x256, 256x257
+        pick += rng.sample([c for c in pixels if npx(c) < 2 ** 16], 1)
+        n2 = lambda c: c['bshape'][0]
+        pick += [rng.choice([c for c in members if c['kind'] == 'rank' and n2(c) in (256, 257)]),
+                 rng.choice([c for c in members if c['kind'] == 'mean' and n2(c) in (256, 257)]),
+                 rng.choice([c for c in members if n2(c) > 2 ** 16])]
+        return pick
+    return pool
+
+
 def cases(rng, tier):
     out = list(_corpus()) if tier != 'search' else []
     out += _find_cases(rng, 'quick' if tier == 'quick' else 'thorough')
-    nrand = dict(quick=10000, thorough=200000, search=20000)[tier]
+    if tier != 'search':
+        out += _currank_cases(rng, 2 if tier == 'quick' else 20)
+        out += _threshold_cases(rng, tier)
+    nrand = dict(quick=12000, thorough=200000, search=20000)[tier]
     for _ in range(nrand):
         r = rng.random()
         dtype = rng.choice(DTYPES)
@@ -299,26 +601,76 @@ def cases(rng, tier):
         shape = list(gen.small_shape(rng, maxlen=7, bias=(1, 2, 3, 4, 5)))
         n = int(np.prod(shape))
         isf = np.dtype(dtype).kind == 'f'
-        if r < 0.35:
+        if r < 0.30:
             bshape, bc = _bc(rng, shape)
             n2 = sum(bc)
-            out.append(dict(kind='rank', dtype=dtype, shape=shape, data=_data(rng, n, dtype), bshape=bshape, bc=bc,
-                            rank=rng.choice([0, n2 - 1, n2 // 2, rng.randrange(n2)]), mode=mode, layout=layout,
-                            blayout=rng.choice(['C', 'C', 'F', 'strided']), scale=rng.choice([1, 4]) if isf else 1))
-        elif r < 0.50:
+            c = dict(kind='rank', dtype=dtype, shape=shape, data=_data(rng, n, dtype), bshape=bshape, bc=bc,
+                     rank=rng.choice([0, n2 - 1, n2 // 2, rng.randrange(n2)]), mode=mode, layout=layout,
+                     blayout=rng.choice(['C', 'C', 'F', 'strided']), scale=rng.choice([1, 4]) if isf else 1)
+            if isf and rng.random() < 0.45:
+                c.update(enc='bits', scale=1, data=_fbits_data(rng, n, dtype))
+            out.append(c)
+        elif r < 0.42:
             bshape, bc = _bc(rng, shape)
             c = dict(kind='median', dtype=dtype, shape=shape, data=_data(rng, n, dtype), bshape=bshape, bc=bc, mode=mode,
                      layout=layout, scale=rng.choice([1, 4]) if isf else 1)
             if rng.random() < 0.3:
                 c.update(default_bc=True, bshape=[3] * len(shape), bc=[1] * (3 ** len(shape)))
+            if isf and rng.random() < 0.45:
+                c.update(enc='bits', scale=1, data=_fbits_data(rng, n, dtype))
             out.append(c)
-        elif r < 0.70:
+        elif r < 0.55:
             bshape, bc = _bc(rng, shape)
             data = _data(rng, n, dtype, small=rng.random() < 0.7)
             if dtype in ('int64', 'uint64'):
                 data = [max(-2 ** 40, min(2 ** 40, v)) for v in data]
             out.append(dict(kind='mean', dtype=dtype, shape=shape, data=data, bshape=bshape, bc=bc,
                             mode=mode if rng.random() < 0.7 else 'ignore', layout=layout))
+        elif r < 0.62:
+            # template_match on float images with arbitrary dyadic values K / 2^s (both signs, fractions, magnitudes up to
+            # the significand): every operation of the kernel rounds; bit for bit against the generic kernel run by the
+            # driver in binary64 / binary32, and against the exact SSD within the error bound of the summation
+            nd = len(shape)
+            fdt = rng.choice(['float32', 'float64'])
+            tshape = ([rng.choice([1, 2, 3, 4]) for _ in range(nd)] if rng.random() < 0.8 else [s_ + rng.choice([0, 1, 3]) for s_ in shape])
+            while int(np.prod(tshape)) > 60:
+                tshape[tshape.index(max(tshape))] = max(1, max(tshape) // 2)
+            nt = int(np.prod(tshape))
+            sexp = rng.choice([0, 0, 3, 10])
+            top = 2 ** 24 - 1 if fdt == 'float32' else 2 ** 52
+            values = rng.choice(['small', 'medium', 'significand', 'mixed'])
+            def kv():
+                mag = dict(small=9, medium=3000, significand=top)[values if values != 'mixed' else rng.choice(['small', 'medium', 'significand'])]
+                return rng.randint(-mag, mag)
+            out.append(dict(kind='tmf', dtype=fdt, shape=shape, data=[kv() for _ in range(n)], bshape=tshape,
+                            bc=[kv() for _ in range(nt)], scale=2 ** sexp, mode=mode, layout=layout,
+                            blayout=rng.choice(['C', 'C', 'F', 'strided']), values=values))
+        elif r < 0.68:
+            # mean_filter on float images with arbitrary dyadic values of both signs (cancellation): the double accumulation
+            # in scan order, bit for bit against the generic kernel; against the exact mean within the summation bound
+            bshape, bc = _bc(rng, shape)
+            fdt = rng.choice(['float32', 'float64', 'float32', 'float64', 'int64', 'uint64'])
+            sexp = rng.choice([0, 0, 3, 10])
+            top = 2 ** 24 - 1 if fdt == 'float32' else 2 ** 52
+            values = rng.choice(['small', 'medium', 'significand', 'mixed'])
+            def kv():
+                mag = dict(small=9, medium=3000, significand=top)[values if values != 'mixed' else rng.choice(['small', 'medium', 'significand'])]
+                return rng.randint(-mag, mag)
+            if fdt in ('int64', 'uint64'):
+                # 64-bit integers at / beyond 2^53 and 2^63: the conversion of each sample to double rounds, the double
+                # accumulation rounds; bit for bit against the same steps, bounded against the exact integer mean
+                sexp, values = 0, 'huge'
+                mdata = _huge_data(rng, n, fdt)
+            else:
+                mdata = [kv() for _ in range(n)]
+            out.append(dict(kind='meanf', dtype=fdt, shape=shape, data=mdata, bshape=bshape, bc=bc,
+                            scale=2 ** sexp, mode=mode if rng.random() < 0.7 else 'ignore', layout=layout, values=values))
+        elif r < 0.71:
+            rows, cols = rng.randint(1, 9), rng.randint(1, 9)
+            dens = rng.choice([0.3, 0.5, 0.5, 0.7, 1.0])
+            out.append(dict(kind='majority', dtype='bool', shape=[rows, cols],
+                            data=[int(rng.random() < dens) for _ in range(rows * cols)], n=rng.randint(2, 7),
+                            bshape=[1, 1], bc=[0], layout=layout))
         elif r < 0.90:
             nd = len(shape)
             q = rng.random()
@@ -331,8 +683,11 @@ def cases(rng, tier):
                 # large differences: sums (8/16-bit: also the promoted int products, signed: the differences themselves)
                 # overflow the dtype; judged exactly against the wrapping model
                 lo_, hi_ = gen.dt_range(dtype)
-                values = rng.choice(['full-range', 'extremes', 'mid'])
+                values = rng.choice(['full-range', 'extremes', 'mid', 'huge'] if np.dtype(dtype).itemsize >= 4 else ['full-range', 'extremes', 'mid'])
+                hp = _huge_palette(dtype)
                 def v():
+                    if values == 'huge':
+                        return rng.choice(hp) if rng.random() < 0.5 else rng.randint(max(lo_, -2), 2)
                     if values == 'extremes':
                         return rng.choice([lo_, hi_, lo_ + 1, hi_ - 1, 0, hi_ // 2])
                     if values == 'mid':            # differences around sqrt(range): some pixels overflow, some do not
@@ -350,12 +705,26 @@ def cases(rng, tier):
             n0, n1 = rng.randint(1, 7), rng.randint(1, 7)
             t0, t1 = rng.randint(1, n0), rng.randint(1, n1)
             data = [rng.randint(0, 1) for _ in range(n0 * n1)]
+            if rng.random() < 0.4:
+                fdt = rng.choice(['int64', 'uint64', 'float64', 'int64', 'uint64', 'int32', 'float32'])
+                data = _huge_data(rng, n0 * n1, fdt, density=rng.choice([0.1, 0.2]))
+                y0, x0 = rng.randint(0, n0 - t0), rng.randint(0, n1 - t1)
+                T = np.array(data, dtype=object).reshape(n0, n1)[y0:y0 + t0, x0:x0 + t1]
+                out.append(dict(kind='find', dtype=fdt, shape=[n0, n1], data=data, bshape=[t0, t1],
+                                bc=[int(v) for v in T.ravel().tolist()], layout=layout, tag='random', values='huge'))
+                continue
             out.append(dict(kind='find', dtype=dtype, shape=[n0, n1], data=data, bshape=[t0, t1],
                             bc=[rng.randint(0, 1) for _ in range(t0 * t1)], layout=layout, tag='random'))
     return out
 
 
 def shrink(case):
+    if case['kind'] == 'currank':
+        m = len(case['n'])
+        if m > 1:
+            for sl in (slice(0, m // 2), slice(m // 2, m)):
+                yield dict(case, n=case['n'][sl], n2=case['n2'][sl], rank=case['rank'][sl])
+        return
     shape, data = case['shape'], case['data']
     A = np.array(data, dtype=object).reshape(shape)
     k = case['kind']
@@ -367,7 +736,7 @@ def shrink(case):
     for key in ('layout', 'blayout'):
         if case.get(key, 'C') != 'C':
             yield dict(case, **{key: 'C'})
-    if case.get('default_bc'):
+    if case.get('default_bc') or k == 'majority':
         return
     Bc = np.array(case['bc'], dtype=object).reshape(case['bshape'])
     for ax in range(Bc.ndim):
@@ -375,7 +744,7 @@ def shrink(case):
             for j in (Bc.shape[ax] - 1, 0):
                 B = np.delete(Bc, j, axis=ax)
                 bc = [int(x) for x in B.ravel().tolist()]
-                if k in ('rank', 'median', 'mean') and not any(bc):
+                if k in ('rank', 'median', 'mean', 'meanf') and not any(bc):
                     continue
                 c = dict(case, bshape=list(B.shape), bc=bc)
                 if k == 'rank':
